@@ -75,6 +75,12 @@ func NewFileCache[MetadataT any](cfg *config.Config, rootDir string, maxCacheSiz
 		removeEntry: func(key CacheKey) error {
 			return c.ensureRemove(key)
 		},
+		isExpired: func(key CacheKey) bool {
+			c.mu.RLock()
+			meta, ok := c.entriesMetadata[key]
+			c.mu.RUnlock()
+			return ok && meta.Expires.Before(time.Now())
+		},
 		getLock: func(key CacheKey) *sync.RWMutex {
 			return getLock(c.locks, key)
 		},
